@@ -1,4 +1,4 @@
-(* C07 section model driver.  Input line:  <wal 0|1> <kmax> <event> ...   events as printed by harness/h_preempt.c
+(* C07 section model driver.  Input line `B <event> ...`: 1 if the call's lock events are balanced, else 0.  Input line:  <wal 0|1> <kmax> <event> ...   events as printed by harness/h_preempt.c
    (a<class><r|w> acquire, r<class> release).  Output: <unguarded log records> <segments> <stale bit for k = 0..kmax> <log records outside the outer locks> *)
 let cls_of s = match s with
   | "store" -> CStore | "db" -> CDb | "fsm" -> CFsm | "exf" -> CExf | "wal" -> CWal | "wk" -> CWk | "spin" -> CSpin
@@ -8,6 +8,7 @@ let ev_of t =
   if t.[0] = 'a' then EA (cls_of (String.sub t 1 (n - 2)), (t.[n - 1] = 'w'))
   else ER (cls_of (String.sub t 1 (n - 1)))
 let handle toks = match toks with
+  | "B" :: evs -> if trace_balanced (List.map ev_of evs) then "1" else "0"   (* lock balance of one call *)
   | w :: kmax :: evs ->
     let tr = List.map ev_of evs in
     let wal = (w = "1") in
